@@ -8,7 +8,7 @@ Two parts, two levels:
    request kind at every position of repository grammars and broken variants under
    `catch_unwind` (`pv_ls c30 explore`). Panics are violations unless attributed to a listed
    finding (F17) by a structural predicate and a counterfactual re-run."""
-import os, subprocess, time
+import os, re, subprocess, time
 from . import common
 
 FILES = ["crates/parol-ls/src/utils.rs"]
@@ -35,32 +35,51 @@ def nontrivial(case):
     return (b"\n" in t or any(b >= 0x80 for b in t)) and any(x != "0" for x in w[2:])
 
 
-def comment_after_last_semicolon(text):
-    """Structural signature of finding F17, evaluated on the document text: scans PAR text
-    (strings "..", raw strings '..', regexes /../ with backslash escapes, // and /* */ comments)
-    and answers whether some comment starts after the last `;` outside strings/regexes/comments.
-    Returns (flag, text with everything after that `;` removed)."""
+def scan_par(text):
+    """Light-weight scan of PAR text: strings "..", raw strings '..', regexes /../ (backslash
+    escapes), // and /* */ comments. Returns (index of the last `;` outside all of those or -1,
+    start indices of the comments, the text with comments and literals blanked out — same length,
+    line breaks kept)."""
     i, n = 0, len(text)
-    last_semi, comments = -1, []
+    last_semi, comments, code = -1, [], list(text)
+
+    def blank(a, b):
+        for k in range(a, min(b, n)):
+            if code[k] not in "\r\n":
+                code[k] = " "
+
     while i < n:
         c = text[i]
         if text.startswith("//", i):
             comments.append(i)
             j = text.find("\n", i)
-            i = n if j < 0 else j + 1
+            j = n if j < 0 else j + 1
+            blank(i, j)
+            i = j
         elif text.startswith("/*", i):
             comments.append(i)
             j = text.find("*/", i + 2)
-            i = n if j < 0 else j + 2
+            j = n if j < 0 else j + 2
+            blank(i, j)
+            i = j
         elif c in "\"'/":
             j = i + 1
             while j < n and text[j] != c:
                 j += 2 if text[j] == "\\" else 1
+            blank(i, j + 1)
             i = j + 1
         else:
             if c == ";":
                 last_semi = i
             i += 1
+    return last_semi, comments, "".join(code)
+
+
+def comment_after_last_semicolon(text):
+    """Structural signature of finding F17, evaluated on the document text: does some comment start
+    after the last `;` (outside strings/regexes/comments)? Returns (flag, the text with everything
+    after that `;` removed)."""
+    last_semi, comments, _ = scan_par(text)
     flag = last_semi >= 0 and any(p > last_semi for p in comments)
     return flag, (text[:last_semi + 1] + "\n" if last_semi >= 0 else text)
 
@@ -73,12 +92,47 @@ def tohex(s):
     return s.encode("utf-8").hex() if s else "-"
 
 
+T_TYPE = re.compile(r"%t_type\b")
+T_TYPE_DECL = re.compile(r"%t_type\s*(?:[A-Za-z_]\w*(?:\s*::\s*[A-Za-z_]\w*)*)?")
+
+
+def t_type_count(text):
+    """Number of `%t_type` keywords outside comments and literals."""
+    return len(T_TYPE.findall(scan_par(text)[2]))
+
+
+def blank_later_t_types(text):
+    """Blanks every `%t_type <type name>` declaration after the first (comments in between stay;
+    line breaks are kept, so the positions of everything else stay the same)."""
+    code = scan_par(text)[2]
+    out = list(text)
+    for m in list(T_TYPE_DECL.finditer(code))[1:]:
+        for k in range(m.start(), m.end()):
+            if code[k] not in " \r\n":      # a character of the declaration itself (comments are blank in `code`)
+                out[k] = " "
+    return "".join(out)
+
+
+# Listed findings that the handler exploration can hit: id -> (structural predicate on
+# (request, panic location, text), counterfactual text transformation under which the same request
+# must succeed — otherwise the panic is NOT explained by the finding and is reported as new).
+SIGNATURES = {
+    # comment after the last production -> debug assertion on left-over comments in the formatter
+    "F17": (lambda req, at, text: req == "formatting" and at.startswith("format_impl.rs:")
+            and comment_after_last_semicolon(text)[0],
+            lambda text: comment_after_last_semicolon(text)[1]),
+    # more than one %t_type declaration -> debug_assert!(ranges.len() == 1) in hover over a terminal
+    "F19": (lambda req, at, text: req == "hover" and at.startswith("parol_ls_grammar.rs:")
+            and t_type_count(text) >= 2,
+            blank_later_t_types),
+}
+
+
 def attribute_panic(request, at, text):
-    """Known-finding id for an explored handler panic, or None. F17: the request is `formatting`,
-    the panic is raised in format_impl.rs (the debug assertion on left-over comments) and the text
-    has a comment after the last `;`."""
-    if request == "formatting" and at.startswith("format_impl.rs:") and comment_after_last_semicolon(text)[0]:
-        return "F17"
+    """Known-finding id for an explored handler panic, or None (structural predicates above)."""
+    for fid, (pred, _) in SIGNATURES.items():
+        if pred(request, at, text):
+            return fid
     return None
 
 
@@ -118,19 +172,18 @@ def explore(ctx, state):
             hits.setdefault(fid, []).append(pn)
         else:
             new.append(pn)
-    # counterfactual for F17: without the comments after the last `;` the same request must succeed
-    f17 = hits.get("F17", [])
-    if f17:
-        cf_cases = [f"handler {tohex(comment_after_last_semicolon(unhex(pn['hex']))[1])} formatting {pn['line']} {pn['col']}"
-                    for pn in f17]
+    # counterfactual: with only the finding's trigger removed from the text the same request must succeed
+    for fid in list(hits):
+        cf_cases = [f"handler {tohex(SIGNATURES[fid][1](unhex(pn['hex'])))} {pn['request']} {pn['line']} {pn['col']}"
+                    for pn in hits[fid]]
         reps = common.impl_lines("c30", cf_cases, binary=binary)
         confirmed = []
-        for pn, case, rep in zip(f17, cf_cases, reps):
+        for pn, case, rep in zip(hits[fid], cf_cases, reps):
             if rep == "ok":
                 confirmed.append(pn)
             else:
                 new.append(dict(pn, counterfactual_case=case, counterfactual_reply=rep))
-        hits["F17"] = confirmed
+        hits[fid] = confirmed
     for fid, hs in hits.items():
         if not hs:
             continue
@@ -138,7 +191,7 @@ def explore(ctx, state):
         w = hs[0]
         texts = len(set(h["hex"] for h in hs))
         ctx.known.append(f"{fid} key={known[fid]['key']} {known[fid]['text']} (reproduced on {texts} explored text(s); "
-                         f"smallest: `handler {w['hex']} formatting {w['line']} {w['col']}` = {unhex(w['hex'])!r}, panic at {w['at']})")
+                         f"smallest: `handler {w['hex']} {w['request']} {w['line']} {w['col']}` = {unhex(w['hex'])!r}, panic at {w['at']})")
     if new:
         new.sort(key=lambda h: len(h["hex"]))
         w = new[0]
@@ -171,7 +224,7 @@ def explore(ctx, state):
         "rule": "base texts: hand-written boundary documents, examples/**/*.par, crates/parol/src/parser/parol.par "
                 "(thorough: + parol_ls.par, parol-ls/data/input/*.par); per base text 3 (quick) / 20 (thorough) seeded mutants "
                 "(truncate, delete span, insert token/Unicode/line-end snippet, LF->CRLF, duplicate/swap lines, multi-byte letter, "
-                "comment in place of a blank, comment after the last production); per text: open, symbols, formatting x3 option sets, "
+                "comment in place of a blank, comment after the last production, an additional declaration line); per text: open, symbols, formatting x3 option sets, "
                 "and hover/definition/prepare-rename/rename/code-action (4 diagnostics per request: both handled codes x forward/next-line/reversed/empty ranges, alternating with position parity) at every "
                 "(line, column) incl. 2 columns past each line end and 2 lines past the end (quick: seeded sample of 250 positions per base text and 100 per mutant; thorough: all positions of base texts, 60 per mutant) plus 5 far-out positions (u32::MAX)",
         "samples": [l for l in lines if l.startswith("text ")][:3] + [l[:200] for l in lines if l.startswith("panic ")][:2],
@@ -207,9 +260,9 @@ SPEC = {
 CLAIM = {
     "category": "proof",
     "text": "Conversion clause — proof: theorems pos_to_offset_total, offset_le_len, offset_on_char_boundary (for ALL texts, incl. CRLF and multi-byte characters, and ALL positions, incl. past line ends and past the last line, the current pos_to_offset returns an offset <= len on a character boundary), extract_no_panic_iff (extract_text_range panics exactly when the end offset lies before the start offset), extract_no_panic_of_le (never for an ordered range) and extract_is_slice hold for the Lean model, a statement-by-statement mirror of crates/parol-ls/src/utils.rs that is tied to the code by an exhaustive differential run (all texts <= 6 units over a 5-letter alphabet with 1-, 2- and 4-byte characters, CR and LF x all positions up to (3,8)) through the harness binary pv_ls, which compiles the current parol-ls sources as its own modules; every reply is also judged by the oracle (offset <= len, on a boundary). The pre-repair function (finding F9) is kept as posToOffset false with checked counterexamples. "
-            "Handler clause — EXPLORATION only (labelled in the evidence under coverage.handler_exploration): hover, go-to-definition, document symbols, prepare-rename, rename, formatting and code-action requests are sent to a real Server (document opened through the server's own didOpen handler over an in-memory connection) at every position, including out-of-range ones, of the repository's grammars and of seeded broken variants, under catch_unwind; any panic is a violation with text+request as replay, except panics attributed to the listed finding F17 (formatting, debug assertion in format_impl.rs, comment after the last production; counterfactually confirmed by re-running without those comments).",
+            "Handler clause — EXPLORATION only (labelled in the evidence under coverage.handler_exploration): hover, go-to-definition, document symbols, prepare-rename, rename, formatting and code-action requests are sent to a real Server (document opened through the server's own didOpen handler over an in-memory connection) at every position, including out-of-range ones, of the repository's grammars and of seeded broken variants, under catch_unwind; any panic is a violation with text+request as replay, except panics attributed to a listed finding by a structural predicate on (request, panic location, text) and confirmed counterfactually by re-running the same request on the text with only the trigger removed: F17 (formatting, debug assertion in format_impl.rs, comment after the last production) and F19 (hover, debug assertion in parol_ls_grammar.rs, more than one %t_type declaration).",
     "design_ref": "DESIGN.md §6 C30",
-    "note": "Level is proof for the position-to-offset clause and exploration for 'handlers return without panicking' (no model of the handlers exists; absence of panics is only observed on the explored texts). Trusted: Lean kernel (propext, Quot.sound, Classical.choice), faithfulness of the hand-written model as observed by the differential run, Lean's String.fromUTF8? and Rust's str for transporting texts, harness and orchestrator. Known finding F17 is reproduced on every run and reported as KNOWN-FINDING.",
+    "note": "Level is proof for the position-to-offset clause and exploration for 'handlers return without panicking' (no model of the handlers exists; absence of panics is only observed on the explored texts). Trusted: Lean kernel (propext, Quot.sound, Classical.choice), faithfulness of the hand-written model as observed by the differential run, Lean's String.fromUTF8? and Rust's str for transporting texts, harness and orchestrator. Known findings F17 and F19 (both debug assertions; release builds do not panic there) are reproduced on every run and reported as KNOWN-FINDING.",
     "technique": "Lean 4 proof over hand-written model + exhaustive differential correspondence check; catch_unwind exploration of the real server for the handler clause",
 }
 
